@@ -562,8 +562,9 @@ def get_sort(node):
     try:
         sort = _get_sort_aux(node)
     except (AssertionError, AttributeError, IndexError, TypeError,
-            ValueError):
-        # the sort of an ill-formed term, e.g. (fp x y), can not be inferred
+            ValueError, RecursionError):
+        # the sort of an ill-formed term, e.g. (fp x y), or of a term that is
+        # nested too deeply for this recursive inference can not be inferred
         sort = None
     __get_sort_cache[node.id] = sort
     __get_sort_cache[node] = sort
